@@ -387,9 +387,20 @@ def nested_phase(run):
                         if is_list:
                             if not isinstance(got, list) or len(got) != 1:
                                 continue
+                            if type(got[0]) is not type(orig[0]):
+                                run.stats["nested_class_chosen_by_another_field"] = \
+                                    run.stats.get("nested_class_chosen_by_another_field", 0) + 1
+                                continue
                             d_in = IC.diff(orig[0], got[0])
                         else:
                             if got is None:
+                                continue
+                            if type(got) is not type(orig):
+                                # the container picks the nested CLASS from another of its fields (a batch item's payload
+                                # class follows its Operation): a value combining the two inconsistently is outside
+                                # the comparison (ASSUMPTIONS of the check), not a codec fault
+                                run.stats["nested_class_chosen_by_another_field"] = \
+                                    run.stats.get("nested_class_chosen_by_another_field", 0) + 1
                                 continue
                             d_in = IC.diff(orig, got)
                         # does the container delegate to the nested class's own writer?  Then the nested
